@@ -102,7 +102,7 @@ def check(pid, tier, only=None):
                     broken.append("%s: harness %s not found in crate %s (vacuity guard)" % (o["name"], o["harness"], crate))
                     continue
                 rec.update(status=r.status, solver_s=r.solver_s, symex_s=r.symex_s, wall_s=r.seconds,
-                           checks=r.total_checks, stubs=r.stubs, kind=r.kind)
+                           checks=r.total_checks, stubs=r.stubs, kind=r.kind, covers_satisfied=r.covers)
                 if r.status == "undecided":
                     broken.append("%s: %s" % (o["name"], r.reason))
                 elif r.status == "failure":
@@ -240,7 +240,7 @@ def write_evidence(pid, tier, seed, mod, records, violations, broken, kani_meta,
             "bounded_count": len(bounded),
             "solver_seconds_total": round(sum(r.get("solver_s", 0) or 0 for r in obl), 3),
             "backends": sorted({r["backend"] for r in obl}),
-            "samples": [{k: r.get(k) for k in ("name", "engine", "status", "clause", "functions", "solver_s", "wall_s", "checks", "stubs", "source_sha", "rules", "bound") if r.get(k) not in (None, [], "")} for r in obl],
+            "samples": [{k: r.get(k) for k in ("name", "engine", "status", "clause", "functions", "solver_s", "wall_s", "checks", "covers_satisfied", "stubs", "source_sha", "rules", "bound") if r.get(k) not in (None, [], "")} for r in obl],
             "units": [r for r in records if r["engine"] == "verus-unit"],
             "undecided": broken,
             "not_under_contract": getattr(mod, "NOT_UNDER_CONTRACT", []),
